@@ -1201,6 +1201,9 @@ def _schedule(w, rnd, cfg, kw):
         _run_until(w, rnd, ks, T[0] + quiet * PERIOD, boot_at, [], [], [], [], budget + 6000)
         margin = (quiet - 12) * PERIOD
         _judge_parked(w, margin)
+        # C13 on the closed loop: no XML-RPC ever left an instance for a peer it holds ISOLATED (recorded by the transport, whole schedule)
+        for src, dst, name in w.net.sent_to_isolated[:3]:
+            w.finding(f'C13:free:sent-to-isolated:{name.split(":")[0]}', f'{src} sent {name} to {dst} while holding it ISOLATED')
         for s in w.live():
             if not s.started or getattr(s, 'last_tick', 0) < T[0] - 2 * PERIOD: continue
             stname = s.fsm.state.name
